@@ -355,7 +355,7 @@ func replayC10(c *vx.Ctx, v vx.Violation) string {
 		if err := jsonUnmarshal(raw, &cs); err != nil {
 			return "bad replay: " + err.Error()
 		}
-		_, d, _ := c10LRun(cs["block_index"])
+		_, d, _ := c10LRun(cs["block_index"], cs["delegates"])
 		return d
 	}
 	var cs c10Case
